@@ -91,9 +91,8 @@ def infer_layouts():
     out, uncovered = {}, {}
     from .vfamily import GENERIC
     for m, info in sorted(intro.items()):
-        if m in GENERIC:
-            continue      # the generic algorithm modules are C06's subject (with their own alphabets)
-        gens = [g for g in ('calc_check_digit', 'calc_check_digits') if g in info['functions'] and len(info['functions'][g]['params'] or []) == 1]
+        gens = [g for g in ('calc_check_digit', 'calc_check_digits') if g in info['functions'] and len(info['functions'][g]['params'] or []) >= 1
+                and all(p[1] is not None for p in info['functions'][g]['params'][1:])]
         if not gens:
             continue
         vals = sorted(set(v for r, v in info['valid']) | set(_SYNTH.get(m, [])))
@@ -206,6 +205,7 @@ def make_units(tier, only):
     if not _LAY:
         _LAY.append(infer_layouts())
     layouts, uncovered = _LAY[0]
+    from .vfamily import GENERIC
     units = []
     for m, lay in sorted(layouts.items()):
         if only and m not in only:
@@ -222,6 +222,8 @@ def make_units(tier, only):
                 units.append(dict(base, kind='complete', L=L - ncheck - skip, charset=(48, 57) if lay['palpha'] == '0123456789' else (48, 90), **caps))
             # (ii) positions of the check characters in the canonical number
             pos = list(range(L - ncheck, L)) if 'tail' in lay['layout'] else list(range(0, ncheck))
+            if m in GENERIC:
+                continue      # substitutions in the generic algorithm modules are C06's subject (alphabet-specific kinds)
             units.append(dict(base, kind='check-subst', prefix='', L=L, positions=pos, subst_alphabet=lay['calpha'], options={},
                               max_paths=200 if tier == 'quick' else 3000, timeout=40 if tier == 'quick' else 600, query_timeout_ms=caps['query_timeout_ms']))
     return units
